@@ -83,7 +83,7 @@ try:
         nk = 1 + rnd % 3
         keys = R.sample(KEYS, nk)
         req = request([keys])
-        C.judge("honest", pol(1, keys_match=rnd % 2 == 0), xml=ksrxml.render_ksr(req), desc={"algs": [k["alg"] for k in keys]})
+        C.judge("honest", pol(1, keys_match=rnd % 2 == 0), xml=ksrxml.render_ksr(req), desc={"algs": [k["alg"] for k in keys]}, built="accept")
         # every document order of keys and signatures
         b = req["bundles"][0]
         perms = list(itertools.permutations(range(nk)))
@@ -198,6 +198,16 @@ try:
         C.judge("honest-odd-ec-key", pol(2), xml=ksrxml.render_ksr(request([[k, other], [other, k]])), desc={"x0": hex(k["pub"][0])})
         r2 = clone(request([[k]])); r2["bundles"][0]["keys"][0]["pub"] = flip(k["pub"], 9)
         C.judge("odd-ec-key-flipped", pol(1), xml=ksrxml.render_ksr(r2), strict=False)
+    # the signed inception/expiration are the instants the document states (UTC), wherever the validating process runs and
+    # whether or not the timestamps carry an offset (the archived KSRs write none)
+    for tz, suffix in ((None, ""), ("VRF+05", ""), ("VRF-05:30", ""), ("VRF+05", "+00:00"), ("VRF-11", "Z")):
+        with ksrxml.process_zone(tz, suffix):
+            for rnd in range(2):
+                keys = R.sample(KEYS, 1 + rnd)
+                req = request([keys])
+                C.judge("honest-zone", pol(1), xml=ksrxml.render_ksr(req), desc={"TZ": tz or "(unset)", "timestamps": suffix or "no offset"}, built="accept")
+                r2 = clone(req); r2["bundles"][0]["sigs"][0]["exp"] = r2["bundles"][0]["sigs"][0]["exp"] + D(hours=5)
+                C.judge("zone-expiration-shifted", pol(1), xml=ksrxml.render_ksr(r2), desc={"TZ": tz or "(unset)"}, built="reject")
     # a signature is the octet string, not the integer: an RSA signature that starts with a zero octet, handed in with that octet dropped
     # (or padded with one more), is a changed signature
     rk = [k for k in KEYS if k["alg"] in (8, 10)][:3]
